@@ -7,26 +7,31 @@ Import ListNotations.
    io.Reader: bufio.Reader with a buffer of bsz bytes (fill, ReadByte, Read, ReadSlice), io.ReadFull,
    io.CopyN into a bytes.Buffer (every request size left to an arbitrary function ask_copy), the
    ReadByte loop of loadBinUnicode, and og-rek's own readLine loop over bufio.ErrBufferFull.  The
-   source (b_src) is ANY list of non-empty Read results, the last one delivered with or without
-   io.EOF; b_buf is whatever is already buffered.  absl b is the concatenation: the bytes still to come.
+   source (b_src) is ANY list of Read results - zero-length results without error included - the last
+   one delivered with or without io.EOF; b_buf is whatever is already buffered.  absl b is the
+   concatenation: the bytes still to come.  A zero-length result is answered by every consumer in this
+   stack by reading again (bufio.fill, io.ReadAtLeast, bytes.Buffer.ReadFrom), which the model folds
+   into the Read that follows (Bufio.skip_empty); bufio.fill's limit of 100 consecutive empty results
+   (io.ErrNoProgress) is not modelled, hence the hypothesis no_long_runs.
 
    C14_chunking: for every buffer size >= 1, every request-size policy, every configuration, decoder
    state and source, the whole sequence of successive Decode results (values and errors, call after
    call) on the bufio machine equals that of the flat model on absl b - hence two sources with the
    same concatenation give the same results (C14_same_bytes_same_results): one byte at a time,
    arbitrary chunk boundaries, data together with io.EOF, lines longer than the buffer.
-   Not modelled (stated, not proved): Read results of length 0 without error (bufio retries up to 100
-   times); a Reader that returns data after io.EOF; errors other than io.EOF. *)
+   Not modelled (stated, not proved): 100 or more zero-length results in a row (io.ErrNoProgress); a
+   Reader that returns data after io.EOF; errors other than io.EOF. *)
 Theorem C14_chunking :
   forall bsz ask_full ask_copy, (1 <= bsz)%nat -> ask_ok ask_full -> ask_ok ask_copy ->
-  forall fuel cfg st b, wf b ->
+  forall fuel cfg st b, wf b -> no_long_runs (b_src b) ->
     decode_all1 bsz ask_full ask_copy fuel cfg st b = decode_all fuel cfg st (absl b).
 Proof. intros. apply decode_all1_refines; assumption. Qed.
 Print Assumptions C14_chunking.
 
 Theorem C14_same_bytes_same_results :
   forall bsz ask_full ask_copy, (1 <= bsz)%nat -> ask_ok ask_full -> ask_ok ask_copy ->
-  forall fuel cfg st b1 b2, wf b1 -> wf b2 -> absl b1 = absl b2 ->
+  forall fuel cfg st b1 b2, wf b1 -> wf b2 -> no_long_runs (b_src b1) -> no_long_runs (b_src b2) ->
+    absl b1 = absl b2 ->
     decode_all1 bsz ask_full ask_copy fuel cfg st b1 = decode_all1 bsz ask_full ask_copy fuel cfg st b2.
 Proof. intros. apply chunking_irrelevant; assumption. Qed.
 Print Assumptions C14_same_bytes_same_results.
@@ -41,12 +46,18 @@ Theorem C14_single_call :
 Proof. intros. apply decode1_refines; assumption. Qed.
 Print Assumptions C14_single_call.
 
-(* the hypotheses are satisfiable: a source of three chunks, the last with EOF; both policies used
-   by the run-time comparison *)
+(* the hypotheses are satisfiable: a source of three chunks, the last with EOF; a source with
+   zero-length results before, between and after the data; both policies used by the run-time
+   comparison *)
 Example C14_nonvacuous :
   wf {| b_buf := []; b_err := false; b_src := [[Byte.x4b]; [Byte.x05; Byte.x2e]; [Byte.x4e]]; b_eofw := true |}
+  /\ (let b := {| b_buf := []; b_err := false; b_src := [[]; [Byte.x4b]; []; []; [Byte.x05; Byte.x2e]; []]; b_eofw := true |} in
+      wf b /\ no_long_runs (b_src b) /\
+      decode_all1 4 (fun need => N.to_nat need) (fun need => N.to_nat need) 3 (Build_dconfig false false None) init_state b
+      = decode_all 3 (Build_dconfig false false None) init_state [Byte.x4b; Byte.x05; Byte.x2e])
   /\ ask_ok (fun need => N.to_nat need) /\ ask_ok (fun need => Nat.min 512 (N.to_nat need)).
 Proof.
-  split; [split; [repeat constructor; discriminate|discriminate]|].
+  split; [split; discriminate|].
+  split; [split; [split; discriminate|split; [cbn; repeat split; lia|vm_compute; reflexivity]]|].
   split; intros need H; split; lia.
 Qed.
